@@ -491,6 +491,28 @@ void run_handler() {
             }
             ++w;
         }
+        // A way with a reference to a node that never arrived: the handler documents osmium::not_found (unless
+        // ignore_errors() was called). C12's statement does not name this behaviour, so it is counted, not judged.
+        {
+            osmium::memory::Buffer wb{4096, osmium::memory::Buffer::auto_grow::no};
+            {
+                osmium::builder::WayBuilder b{wb};
+                b.set_id(999);
+                b.set_user("");
+                osmium::builder::WayNodeListBuilder wl{b};
+                const uint32_t k = 2 + choose(S_WORK, 5);
+                const uint32_t missing_at = choose(S_WORK, k);
+                for (uint32_t i = 0; i < k; ++i) { wl.add_node_ref(i == missing_at ? 7000 + static_cast<int64_t>(choose(S_WORK, 100)) : node_ids[choose(S_WORK, static_cast<uint32_t>(node_ids.size()))]); }
+            }
+            wb.commit();
+            bool nf = false;
+            try {
+                osmium::apply(wb, handler);
+            } catch (const osmium::not_found&) {
+                nf = true;
+            }
+            sim::probe(nf ? "way with a missing node: handler threw not_found (documented behaviour, not part of C12)" : "way with a missing node: handler did NOT throw not_found (documented behaviour, not part of C12)");
+        }
     } catch (const std::exception& e) {
         report_exception("C12.handler/unexpected-exception", "", e);
     }
